@@ -34,7 +34,14 @@ CLAIM = dict(
           "per-step annealing proposals replayed through the model of the Python kernel, hilbert() for levels 0..8 and "
           "the level/chip order for machine sizes up to 256, place/utils.py functions called directly) and by the Lean "
           "Feasible predicate run on every placement of every placer, both annealing kernels included; undocumented "
-          "exceptions and failures under the unit-demand hypothesis are reported for every placer."),
+          "exceptions and failures under the unit-demand hypothesis are reported for every placer. TERMINATION OF THE "
+          "ANNEALER (validated, not a theorem: float temperatures): every call runs under a CPU limit; problems with exactly "
+          "0 / 1 / 2 movable vertices are annealed to their own end without a bounding callback; a call that does not return "
+          "is reported as a violation (did-not-return) when the same call with the other kernel returns within the limit - "
+          "the schedule multiplies the temperature by at most 0.95 per iteration and stops when the cost is 0 or the "
+          "temperature is below 0.005 * cost / #nets, and the cost takes finitely many values, so it is finite for every "
+          "finite starting temperature and both kernels are driven by the same schedule - and as a broken correspondence "
+          "otherwise."),
     design="3/C02",
     note=("NOT proved, only validated on every run: rig_c_sa (C annealing kernel) is an opaque binary, covered only by the "
           "Feasible oracle on its outputs (and by undocumented-exception / completeness reporting). The vertex orders "
@@ -72,7 +79,7 @@ RULE = ("problems: 0-40 vertices (0-3 units of 1-3 resources, some needing nothi
         "clause; a small out-of-domain stream (correspondence only). Each problem is run through sequential (default and "
         "custom orders), breadth-first, Hilbert (both modes), RCM, random, annealing with the Python kernel (recorded "
         "step by step) and the C kernel. A case is non-trivial when at least one placer returned a placement of >= 2 "
-        "vertices on a machine with >= 2 working chips and the problem has at least one constraint; plus two (thorough: four) unplaceable chains of 300-1500 pairwise same-chip constraints; plus whole anneals (unbounded "
+        "vertices on a machine with >= 2 working chips and the problem has at least one constraint; 40 (thorough: 300) problems with exactly 0 / 1 / 2 movable vertices (all others location-constrained; nets between pinned vertices on different chips, between movable and pinned ones, self loops, zero weights; every effort incl. 0) whose anneals run to their own end without a bounding callback under a 20 s CPU limit; plus two (thorough: four) unplaceable chains of 300-1500 pairwise same-chip constraints; plus whole anneals (unbounded "
         "number of temperatures) of one net of weight 100 among a ring of nets of weight 0.01 on machines 8x8..12x12 "
         "(thorough: up to 24x24, 62 vertices)")
 
@@ -471,10 +478,45 @@ def outcome(fn, limit=None):
 TERMINATING = ("sequential", "sequential-custom", "breadth_first", "hilbert", "rcm", "rand")
 
 
-def did_not_return(ctx, name, impl, case):
+def sa_twin(prob, name, limit):
+    """the same annealing call (fresh objects, same seed, no callback) with the OTHER kernel -> outcome or None"""
+    import time
+    from rig.place_and_route.place.sa import algorithm as sa_alg
+    from rig.place_and_route.place.sa import python_kernel
+    try:
+        from rig.place_and_route.place.sa.c_kernel import CKernel
+    except ImportError:
+        return None
+    if c02_variants.too_big_for_c(prob):
+        return None
+    vr, nets, machine, cs = build(prob)
+    kernel, kk = (CKernel, {}) if name.startswith("sa-python") else (python_kernel.PythonKernel, {"no_warn": True})
+    seed = prob["seeds"][1 if name.startswith("sa-python") else 2]
+    t0 = time.process_time()
+    out = outcome(lambda: sa_alg.place(vr, nets, machine, cs, effort=prob["effort"], random=_random.Random(seed),
+                                       kernel=kernel, kernel_kwargs=kk), limit)
+    out["cpu"] = time.process_time() - t0
+    return out
+
+
+def did_not_return(ctx, name, impl, case, prob=None):
+    """A call that does not return.  Sequential family / random placer: the model terminates on every input
+    (theorems) - violation.  Annealer: its schedule is finite for every finite starting temperature (each
+    iteration multiplies the temperature by at most 0.95, the loop ends when the cost is 0 or the temperature is
+    below 0.005 * cost / #nets, and the cost takes finitely many values, so a positive minimum) - the property's
+    'always terminates' is judged concretely: the call is a violation when the SAME call without any callback with
+    the OTHER kernel returns within the same CPU limit (the two kernels implement one interface and one schedule
+    drives them); otherwise it stays a broken correspondence."""
     what = "%s did not return: %s" % (name, impl.get("msg"))
     if name in TERMINATING:
         ctx.violation("did-not-return", what + " (the model of this placer terminates on every input)", case)
+        return
+    twin = sa_twin(prob, name, 20) if prob is not None and name in ("sa-python", "sa-c") else None
+    if twin is not None and twin.get("err") != "DidNotReturn":
+        ctx.violation("did-not-return", "%s; the same call (same problem, same seed, no callback) with the other annealing "
+                      "kernel returns after %.2f s of CPU time (%s); the annealing schedule is finite for every finite "
+                      "temperature and cost sequence" % (what, twin["cpu"], "a placement" if "ok" in twin else twin["err"]),
+                      case)
     else:
         ctx.mismatch("c02.did-not-return", what, case)
 
@@ -656,11 +698,17 @@ def run_placers(prob):
     try:
         how = call.pick("sa", ["keyword", "positional", "default-random", "default-place"])
         cb = on_temp
-        if prob["max_temps"] is None and len(prob["vr"]) <= 6 and call.pick("sa-cb", [0, 1]):
+        if prob.get("unbounded"):
+            # the anneal runs to its own end (a callback that never asks to stop, or none at all)
+            cb = None if prob["seeds"][3] % 2 else (lambda *a: None)
+            conv.append("anneal-unbounded")
+        elif prob["max_temps"] is None and len(prob["vr"]) <= 6 and call.pick("sa-cb", [0, 1]):
             cb = None                               # no callback at all: the anneal runs to its own end
             conv.append("on_temperature_change=None")
         conv.append("sa:" + how)
         lim = 120 if prob["max_temps"] is None else 30
+        if prob.get("unbounded"):
+            lim = 20
         if how == "keyword":
             out = outcome(lambda: sa_alg.place(vr, nets, machine, cs, effort=prob["effort"], random=rr,
                                                on_temperature_change=cb, kernel=K,
@@ -703,6 +751,8 @@ def run_placers(prob):
             t2[0] += 1
             if t2[0] >= 4:
                 return False
+        if prob.get("unbounded"):
+            on_temp2 = None if prob["seeds"][3] % 2 == 0 else (lambda *a: None)
         from rig.place_and_route.place import sa as sa_pkg
         how = call.pick("sa-c", ["keyword", "default-kernel", "positional"])
         if how == "default-kernel" and sa_alg.place.__defaults__[3] is not CKernel:
@@ -710,10 +760,10 @@ def run_placers(prob):
         conv.append("sa-c:" + how)
         if how == "keyword":
             add("sa-c", outcome(lambda: sa_alg.place(vr, nets, machine, cs, effort=prob["effort"], random=rr,
-                                                     on_temperature_change=on_temp2, kernel=CKernel), 30), None)
+                                                     on_temperature_change=on_temp2, kernel=CKernel), 20 if prob.get("unbounded") else 30), None)
         elif how == "default-kernel":
             add("sa-c", outcome(lambda: sa_pkg.place(vr, nets, machine, cs, effort=prob["effort"], random=rr,
-                                                     on_temperature_change=on_temp2), 30), None)
+                                                     on_temperature_change=on_temp2), 20 if prob.get("unbounded") else 30), None)
         else:
             add("sa-c", outcome(lambda: sa_alg.place(vr, nets, machine, cs, prob["effort"], rr, on_temp2, CKernel, {}),
                                 30), None)
@@ -847,7 +897,7 @@ def eval_problems(ctx, probs):
             else:
                 ctx.tag(name + ":" + impl["err"])
                 if impl["err"] == "DidNotReturn":
-                    did_not_return(ctx, name, impl, case)
+                    did_not_return(ctx, name, impl, case, prob)
                 elif impl["err"] not in DOCUMENTED:
                     if not prob["ood"]:
                         ctx.violation("%s-raises-%s" % (name, impl["err"]),
@@ -975,6 +1025,69 @@ def gen_hetero(rng, size, ring):
             "hilbert_bf": rng.random() < 0.5, "unit_r0": 0})
 
 
+def gen_pinned(rng, movable=None):
+    """a problem with exactly 0, 1 or 2 MOVABLE vertices: every other vertex is location-constrained.  Nets between
+    pinned vertices on different chips (a cost no move can change), between movable and pinned vertices, self loops,
+    zero-weight nets; every effort incl. 0; the anneals run to their own end (no bounding callback)"""
+    R = rng.choice([1, 1, 2])
+    w, h = rng.choice([(1, 1), (2, 1), (1, 2), (2, 2), (2, 2), (3, 2), (3, 3), (4, 4), (5, 3)])
+    allchips = [(x, y) for x in range(w) for y in range(h)]
+    dead = [c for c in allchips if rng.random() < rng.choice([0, 0, 0.2])]
+    if len(dead) == len(allchips):
+        dead = dead[1:]
+    working = [c for c in allchips if c not in dead]
+    m = rng.choice([0, 1, 1, 1, 2, 2]) if movable is None else movable
+    n = max(m, rng.choice([1, 2, 2, 3, 4, 5, 6, 8]))
+    vr = [[v, [rng.choice([0, 1, 1, 2]) for _ in range(R)], [True] * R] for v in range(n)]
+    ample = rng.random() < 0.85
+    res = [sum(d[i] for _, d, _ in vr) + rng.choice([0, 1]) if ample else max(d[i] for _, d, _ in vr) for i in range(R)]
+    order = list(range(n))
+    rng.shuffle(order)
+    pinned = sorted(order[m:])
+    loc = {v: rng.choice(working) for v in pinned}
+    cs = []
+    if len(pinned) >= 2 and rng.random() < 0.25:
+        a, b = rng.sample(pinned, 2)
+        loc[b] = loc[a]
+        cs.append({"t": "same", "vs": [a, b]})
+    if pinned and rng.random() < 0.05:
+        loc[rng.choice(pinned)] = (w + 1, 0)            # pinned outside the machine
+    cs += [{"t": "loc", "v": v, "c": list(loc[v])} for v in pinned]
+    if rng.random() < 0.2:
+        cs.append({"t": "res", "r": rng.randrange(R), "amt": 1, "c": None})
+    rng.shuffle(cs)
+    mov = [v for v in range(n) if v not in loc]
+    nets = []
+    for _ in range(rng.choice([1, 2, 3, n, 2 * n])):
+        kind = rng.choice(["pinned-apart", "pinned-apart", "movable-pinned", "movable-pinned", "self", "any"])
+        wt = rng.choice([1, 1, 2, 0.5, 0, 100])
+        if kind == "pinned-apart" and len(pinned) >= 2:
+            a = rng.choice(pinned)
+            far = [b for b in pinned if loc[b] != loc[a]] or pinned
+            nets.append([a, [rng.choice(far)] + ([rng.choice(pinned)] if rng.random() < 0.3 else []), wt])
+        elif kind == "movable-pinned" and mov and pinned:
+            a, b = rng.choice(mov), rng.choice(pinned)
+            nets.append([a, [b], wt] if rng.random() < 0.5 else [b, [a], wt])
+        elif kind == "self":
+            v = rng.randrange(n)
+            nets.append([v, [v], wt])
+        else:
+            nets.append([rng.randrange(n), [rng.randrange(n) for _ in range(rng.choice([1, 2, 3]))], wt])
+    vo = list(range(n))
+    rng.shuffle(vo)
+    co = list(working)
+    rng.shuffle(co)
+    prob = {"w": w, "h": h, "res": res, "exc": [], "dead": [list(c) for c in dead], "vr": vr, "nets": nets, "cs": cs,
+            "ood": False, "unit": False, "vo": vo, "co": [list(c) for c in co],
+            "seeds": [rng.randrange(2 ** 30) for _ in range(4)], "effort": rng.choice([0, 0, 0.1, 1.0, 1.0, 2.0]),
+            "max_temps": None, "hilbert_bf": rng.random() < 0.5, "unit_r0": None, "twist": "movable-%d" % len(mov),
+            "unbounded": True}
+    c02_names.draw(rng, prob)
+    c02_variants.draw(rng, prob)
+    prob["var"]["scale"] = 1            # both kernels run on these
+    return prob
+
+
 def gen_chain(rng, depth):
     """depth + 1 one-unit vertices chained by pairwise same-chip constraints (the merged vertices nest that deep) on a
     machine whose chips hold `depth` units: unplaceable, and the only acceptable outcome is InsufficientResourceError
@@ -1022,7 +1135,7 @@ def run(ctx):
         "custom vertex orders are permutations of the vertices (documented precondition of sequential.place)",
         "completeness clause read as: one resource r0, every vertex needs 0 or 1 unit of r0 and nothing else, at least one working chip",
         "termination of the annealing temperature schedule is bounded by the harness through on_temperature_change"]
-    n = ctx.scale(1500, 30000)
+    n = ctx.scale(1500, 27000)
     if ctx.extended:
         n *= 4
     rng = ctx.rng
@@ -1044,6 +1157,10 @@ def run(ctx):
     for prob in hetero:
         ctx.tag("hetero-weights-problem")
         eval_problems(ctx, [prob])
+    # exactly 0 / 1 / 2 movable vertices, anneals without a bounding callback
+    pinned = [gen_pinned(rng) for _ in range(ctx.scale(40, 300) * (4 if ctx.extended else 1))]
+    for i in range(0, len(pinned), 50):
+        eval_problems(ctx, pinned[i:i + 50])
     # same-chip chains deeper than the interpreter's recursion limit allows to print recursively, unplaceable
     for depth in ([rng.choice([300, 340, 400]), rng.choice([350, 450])] if ctx.quick else
                   [320, rng.choice([400, 600]), rng.choice([800, 1100]), 1500]):
